@@ -16,6 +16,7 @@ import collections
 import json
 import os
 import random
+import re
 
 import vlib
 
@@ -231,21 +232,23 @@ def to_walk_in(g, wid, walk):
 
 
 def direction_a(ctx, cov):
+    """Plans and performs the walks.  Returns the trace lines and a function
+    that digests the verdict of the trace spec for these lines."""
     cfg = "HashPrefix.genq.cfg" if ctx.quick else "HashPrefix.gen.cfg"
-    gen = ctx.tlc("HashPrefix", cfg, workers=4, timeout=1200)
+    gen = ctx.tlc("HashPrefix", cfg, workers=4, timeout=1500)
     uni = [v["universe"] for v in gen["vectors"] if "universe" in v]
     edges = [v for v in gen["vectors"] if "s" in v]
     if not uni or len(edges) < 1000:
         raise vlib.Inconclusive("too few edges: %d" % len(edges))
     universe = uni[0]
     g = Graph(edges)
-    del edges
+    del edges, gen
     rng = random.Random(ctx.seed)
     # quick: a seeded part of the pairs (the walker is the same); thorough: all
-    walks, pairs_total, pairs_planned = plan_walks(g, rng, budget=60000 if ctx.quick else None)
+    walks, pairs_total, pairs_planned = plan_walks(g, rng, budget=40000 if ctx.quick else None)
     nsteps = sum(len(w["steps"]) for w in walks)
-    ctx.log("graph: %d states, %d (state, action) pairs reachable under the expected choices; %d walks, %d steps"
-            % (len(g.states), pairs_total, len(walks), nsteps))
+    ctx.log("graph: %d states, %d (state, action) pairs; %d walks, %d steps cover %d of them"
+            % (len(g.states), pairs_total, len(walks), nsteps, pairs_planned))
     # Vacuity of the generated behaviours.
     kinds = collections.Counter()
     for u in range(len(g.adj)):
@@ -255,8 +258,7 @@ def direction_a(ctx, cov):
                 kinds["asked" if out[0] else "not_asked"] += 1
                 if out[1] and not out[0]:
                     kinds["blocked_from_cache"] += 1
-                st = g.states[u]["c"]
-                if out[0] and any(v2[0] > 0 for v2 in st.values()) and len(out[0]) < 3:
+                if out[0] and any(v2[0] > 0 for v2 in g.states[u]["c"].values()):
                     kinds["asked_with_warm_cache"] += 1
             else:
                 kinds[ak[0]] += 1
@@ -267,74 +269,71 @@ def direction_a(ctx, cov):
     walks_in = [to_walk_in(g, i, w) for i, w in enumerate(walks)]
     by, summ = run_walks(ctx, universe, walks_in, "a")
     lines, where = walk_trace(universe, walks_in, by)
-    bad, skipped, diag = validate(ctx, lines, "a")
 
-    # How far the real code followed the expected choices (coverage is
-    # measured on the real path only when it did).
-    agree = deviate = proj_same = proj_diff = 0
-    covered = set()
-    for wi, w in enumerate(walks):
-        on_plan = True
-        for i, ((ak, out, u, v), r) in enumerate(zip(w["steps"], by[wi])):
-            if not on_plan:
-                break
-            if ak[0] == "c":
-                if (tuple(sorted(r["q"])), bool(r["v"])) != out or not r["ok"]:
-                    deviate += 1
-                    on_plan = False
-                    if deviate <= 3:
-                        ctx.notes.append({"left_expected_choice": {
-                            "walk": wi, "step": i, "name": ak[1], "expected": [list(out[0]), out[1]],
-                            "observed": [r["q"], r["v"], r["ok"]], "state": g.states[u],
-                            "history": walks_in[wi]["steps"][:i + 1]}})
-                    break
-                agree += 1
-                want = {p: sorted(x[1]) for p, x in g.states[v]["c"].items()
-                        if x[0] > 0 and p in g.states[v]["i"]["held"]}
-                got = {p: sorted(x) for p, x in (r.get("proj") or {}).items()}
-                if want == got:
-                    proj_same += 1
-                else:
-                    proj_diff += 1
-            covered.add((u, ak))
-    # Isolation: re-run a rejected walk alone, up to the rejected step.
-    reproduced = 0
-    for ln in bad[:6]:
-        wid, si = where[ln - 1]
-        w1 = dict(walks_in[wid], steps=walks_in[wid]["steps"][:si + 1], w=0)
-        by1, _ = run_walks(ctx, universe, [w1], "a_iso")
-        lines1, _ = walk_trace(universe, [w1], by1)
-        bad1, _, diag1 = validate(ctx, lines1, "a_iso")
-        if bad1 and bad1[-1] == len(lines1):
-            reproduced += 1
-            rec = {"kind": "walk", "universe": universe, "walk": w1, "seed": ctx.seed,
-                   "observed": by1[0][-1], "admissible": diag1.get(len(lines1), {}).get("admissible"),
-                   "valid_entries": diag1.get(len(lines1), {}).get("valid"), "names": summ.get("names")}
-            ctx.disagreement(classify(rec), rec,
-                             "Check(%s): question %s verdict %s ok=%s (%s) not admitted by the spec after %d steps"
-                             % (by1[0][-1].get("host"), by1[0][-1]["q"], by1[0][-1]["v"], by1[0][-1]["ok"],
-                                by1[0][-1].get("why", ""), si))
-        else:
-            ctx.notes.append("walk %d step %d rejected once, not reproduced in isolation" % (wid, si))
-    cov.update({
-        "a_states": len(g.states), "a_pairs_reachable": pairs_total, "a_pairs_planned": pairs_planned,
-        "a_pairs_covered_on_real_path": len(covered),
-        "a_walks": len(walks), "a_steps": nsteps, "a_lines_rejected": len(bad), "a_lines_skipped": skipped,
-        "a_rejected_reproduced": reproduced,
-        "a_checks_as_expected_choice": agree, "a_walks_leaving_expected_choice": deviate,
-        "a_cache_projection_equal": proj_same, "a_cache_projection_different": proj_diff,
-        "a_edge_kinds": dict(kinds), "a_hashes_tried_for_collisions": summ["hashes_tried"],
-        "a_concrete_names": summ["names"], "a_prefix_classes": summ["classes"],
-        "a_malformed_strings_served": summ["junk_strings"],
-    })
-    samples = []
-    for k in (1, len(lines) // 2, len(lines) - 1):
-        if 0 <= k < len(lines):
+    def digest(bad, skipped, diag):
+        # How far the real code followed the predicted choices: the coverage
+        # of (state, action) pairs is counted on the real path only.
+        agree = deviate = proj_same = proj_diff = 0
+        covered = set()
+        for wi, w in enumerate(walks):
+            for i, ((ak, out, u, v), r) in enumerate(zip(w["steps"], by[wi])):
+                if ak[0] == "c":
+                    if (tuple(sorted(r["q"])), bool(r["v"])) != out or not r["ok"]:
+                        deviate += 1
+                        if deviate <= 3:
+                            ctx.notes.append({"left_predicted_choice": {
+                                "walk": wi, "step": i, "name": ak[1], "predicted": [list(out[0]), out[1]],
+                                "observed": [r["q"], r["v"], r["ok"]], "state": g.states[u]}})
+                        break
+                    agree += 1
+                    want = {p: sorted(x[1]) for p, x in g.states[v]["c"].items()
+                            if x[0] > 0 and p in g.states[v]["i"]["held"]}
+                    got = {p: sorted(x) for p, x in (r.get("proj") or {}).items()}
+                    if want == got:
+                        proj_same += 1
+                    else:
+                        proj_diff += 1
+                covered.add((u, ak))
+        # Isolation: re-run a rejected walk alone, up to the rejected step.
+        reproduced = 0
+        for ln in bad[:5]:
+            wid, si = where[ln - 1]
+            w1 = dict(walks_in[wid], steps=walks_in[wid]["steps"][:si + 1], w=0)
+            by1, _ = run_walks(ctx, universe, [w1], "a_iso")
+            lines1, _ = walk_trace(universe, [w1], by1)
+            bad1, _, diag1 = validate(ctx, lines1, "a_iso")
+            obs = by1[0][-1]
+            if bad1 and bad1[-1] == len(lines1):
+                reproduced += 1
+                rec = {"kind": "walk", "universe": universe, "walk": w1, "seed": ctx.seed, "observed": obs,
+                       "admissible": diag1.get(len(lines1), {}).get("admissible"),
+                       "valid_entries": diag1.get(len(lines1), {}).get("valid"), "names": summ.get("names")}
+                ctx.disagreement(classify(rec), rec,
+                                 "Check(%s): question %s verdict %s ok=%s (%s) not admitted by the spec after %d steps"
+                                 % (obs.get("host"), obs["q"], obs["v"], obs["ok"], obs.get("why", ""), si))
+            else:
+                ctx.notes.append("walk %d step %d rejected once, not reproduced in isolation" % (wid, si))
+        cov.update({
+            "a_states": len(g.states), "a_pairs": pairs_total, "a_pairs_planned": pairs_planned,
+            "a_pairs_covered_on_real_path": len(covered),
+            "a_walks": len(walks), "a_steps": nsteps, "a_lines_rejected": len(bad), "a_lines_skipped": skipped,
+            "a_rejected_reproduced": reproduced,
+            "a_checks_as_predicted": agree, "a_walks_leaving_prediction": deviate,
+            "a_cache_projection_equal": proj_same, "a_cache_projection_different": proj_diff,
+            "a_edge_kinds": dict(kinds), "a_hashes_tried_for_collisions": summ["hashes_tried"],
+            "a_concrete_names": summ["names"], "a_prefix_classes": summ["classes"],
+            "a_malformed_strings_served": summ["junk_strings"],
+        })
+        samples = []
+        for k in (1, len(lines) // 2, len(lines) - 1):
             wid, si = where[k]
             samples.append({"trace_line": lines[k], "real": by[wid][si] if si >= 0 else None})
-    nontrivial = sum(1 for (u, ak) in covered if ak[0] == "c" and any(x[0] > 0 for x in g.states[u]["c"].values()))
-    exhaustive = (len(covered) == pairs_total and not bad)
-    return nsteps, nontrivial, samples, exhaustive, len(bad)
+        nontrivial = sum(1 for (u, ak) in covered
+                         if ak[0] == "c" and any(x[0] > 0 for x in g.states[u]["c"].values()))
+        return {"steps": nsteps, "nontrivial": nontrivial, "samples": samples,
+                "exhaustive": len(covered) == pairs_total and not bad}
+
+    return lines, digest
 
 
 # ------------------------------------------------------------------ direction B
@@ -344,58 +343,58 @@ def direction_b(ctx, cov, pkg, test, tag, synctest):
     rows = vlib.read_ndjson(tout)
     if rc != 0 or len(rows) < 100:
         raise vlib.Inconclusive("C19 %s driver did not complete:\n%s" % (tag, out[-3000:]))
-    bad, skipped, diag = validate(ctx, rows, tag)
-    checks = [r for r in rows if r["a"] == "check"]
-    stats = {
-        "lines": len(rows), "checks": len(checks), "blocked": sum(1 for r in checks if r["v"]),
-        "answered_from_cache": sum(1 for r in checks if not r["q"] and any(
-            k > max(r["n"]["cut"], r["n"]["opt"]) for k in range(1, len(r["n"]["h"]) + 1))),
-        "asked": sum(1 for r in checks if r["q"]), "ticks": sum(1 for r in rows if r["a"] == "tick"),
-        "db_changes": sum(1 for r in rows if r["a"] == "db"), "rejected": len(bad), "skipped": skipped,
-        "mixed_case": sum(1 for r in checks if r.get("host", "") != r.get("host", "").lower()),
-        "labels_1_to_8": sorted({len(r["n"]["l"]) for r in checks}),
-    }
-    for k in ("checks", "blocked", "answered_from_cache", "asked"):
-        if not stats[k]:
-            raise vlib.Inconclusive("vacuous %s trace: no %s" % (tag, k))
-    reproduced = 0
-    starts = {}
-    for i, r in enumerate(rows):
-        if r["a"] == "reset":
-            starts[r["w"]] = i
-    for ln in bad[:4]:
-        r = rows[ln - 1]
-        w, step = r["w"], ln - 1 - starts[r["w"]] - 1
-        tout1 = ctx.path("c19_%s_iso.ndjson" % tag)
-        ctx.go_test(pkg, FILES, test, env={"VERIF_OUT": tout1, "VERIF_ONLY_WALK": str(w),
-                                           "VERIF_MAX_STEPS": str(step + 1)}, synctest=synctest)
-        rows1 = vlib.read_ndjson(tout1)
-        if not rows1:
-            continue
-        bad1, _, diag1 = validate(ctx, rows1, tag + "_iso")
-        if bad1 and bad1[-1] == len(rows1):
-            reproduced += 1
+
+    def digest(bad, skipped, diag):
+        checks = [r for r in rows if r["a"] == "check"]
+        stats = {
+            "lines": len(rows), "checks": len(checks), "blocked": sum(1 for r in checks if r["v"]),
+            "answered_from_cache": sum(1 for r in checks if not r["q"] and any(
+                k > max(r["n"]["cut"], r["n"]["opt"]) for k in range(1, len(r["n"]["h"]) + 1))),
+            "asked": sum(1 for r in checks if r["q"]), "ticks": sum(1 for r in rows if r["a"] == "tick"),
+            "db_changes": sum(1 for r in rows if r["a"] == "db"), "rejected": len(bad), "skipped": skipped,
+            "mixed_case": sum(1 for r in checks if r.get("host", "") != r.get("host", "").lower()),
+            "labels": sorted({len(r["n"]["l"]) for r in checks}),
+            "private_or_unlisted_suffix": sum(1 for r in checks if r["n"]["opt"] > 0),
+        }
+        for k in ("checks", "blocked", "answered_from_cache", "asked"):
+            if not stats[k]:
+                raise vlib.Inconclusive("vacuous %s trace: no %s" % (tag, k))
+        reproduced = 0
+        starts = {r["w"]: i for i, r in enumerate(rows) if r["a"] == "reset"}
+        for ln in bad[:4]:
+            r = rows[ln - 1]
+            w, step = r["w"], ln - 1 - starts[r["w"]] - 1
+            tout1 = ctx.path("c19_%s_iso.ndjson" % tag)
+            ctx.go_test(pkg, FILES, test, env={"VERIF_OUT": tout1, "VERIF_ONLY_WALK": str(w),
+                                               "VERIF_MAX_STEPS": str(step + 1)}, synctest=synctest)
+            rows1 = vlib.read_ndjson(tout1)
+            if not rows1:
+                continue
+            bad1, _, diag1 = validate(ctx, rows1, tag + "_iso")
             last = rows1[-1]
-            rec = {"kind": "trace", "test": test, "pkg": pkg, "synctest": synctest, "seed": ctx.seed, "tier": ctx.tier,
-                   "walk": w, "steps": step + 1, "observed": last,
-                   "admissible": diag1.get(len(rows1), {}).get("admissible"),
-                   "valid_entries": diag1.get(len(rows1), {}).get("valid")}
-            ctx.disagreement(classify(rec), rec,
-                             "%s: Check(%s): question %s verdict %s ok=%s (%s) not admitted by the spec (walk %d step %d)"
-                             % (tag, last.get("host"), last["q"], last["v"], last["ok"], last.get("why", ""), w, step))
-        else:
-            ctx.notes.append("%s walk %d step %d rejected once, not reproduced in isolation" % (tag, w, step))
-    stats["rejected_reproduced"] = reproduced
-    cov["b_" + tag] = stats
-    sample = next((r for r in checks if r["v"] and not r["q"]), checks[0])
-    return len(checks), sample, len(bad)
+            if bad1 and bad1[-1] == len(rows1):
+                reproduced += 1
+                rec = {"kind": "trace", "test": test, "pkg": pkg, "synctest": synctest, "seed": ctx.seed,
+                       "tier": ctx.tier, "walk": w, "steps": step + 1, "observed": last,
+                       "admissible": diag1.get(len(rows1), {}).get("admissible"),
+                       "valid_entries": diag1.get(len(rows1), {}).get("valid")}
+                ctx.disagreement(classify(rec), rec,
+                                 "%s: Check(%s): question %s verdict %s ok=%s (%s) not admitted by the spec "
+                                 "(walk %d step %d)" % (tag, last.get("host"), last["q"], last["v"], last["ok"],
+                                                        last.get("why", ""), w, step))
+            else:
+                ctx.notes.append("%s walk %d step %d rejected once, not reproduced in isolation" % (tag, w, step))
+        stats["rejected_reproduced"] = reproduced
+        cov["b_" + tag] = stats
+        return {"checks": len(checks), "sample": next((r for r in checks if r["v"] and not r["q"]), checks[0])}
+
+    return rows, digest
 
 
 def run(ctx):
     # Half 1: the statement's invariants on the complete graph, with coverage.
     mc = ctx.tlc("HashPrefix", "HashPrefix.mcq.cfg" if ctx.quick else "HashPrefix.mc.cfg",
                  workers=4, coverage=True, timeout=1500)
-    import re
     taken = collections.Counter()
     for m in re.finditer(r"^<(\w+) line \d+, col \d+ to line \d+, col \d+ of module HashPrefix[^>]*>: (\d+):(\d+)$",
                          mc["out"], re.M):
@@ -404,30 +403,40 @@ def run(ctx):
         if not taken[act]:
             raise vlib.Inconclusive("vacuous: action %s never taken in %s" % (act, mc["cfg"]))
     cov = {"mc_states": mc["distinct"], "mc_transitions": mc["generated"], "mc_actions_taken": dict(taken)}
+    del mc
 
-    a_steps, a_nontrivial, samples, exhaustive, a_bad = direction_a(ctx, cov)
-    b_checks, b_sample, b_bad = direction_b(ctx, cov, PKG, "^TestZZVerifC19Trace$", "pkg", True)
-    f_checks, f_sample, f_bad = direction_b(ctx, cov, FPKG, "^TestZZVerifC19Front$", "front", False)
-    samples += [{"trace_line_b": b_sample}, {"trace_line_front": f_sample}]
+    parts = [direction_a(ctx, cov),
+             direction_b(ctx, cov, PKG, "^TestZZVerifC19Trace$", "pkg", True),
+             direction_b(ctx, cov, FPKG, "^TestZZVerifC19Front$", "front", False)]
+    # One TLC run judges all three traces (they are concatenated; every walk
+    # starts with its own reset line).
+    every = [ln for lines, _ in parts for ln in lines]
+    bad, skipped, diag = validate(ctx, every, "all", timeout=2400)
+    res, off = [], 0
+    for lines, digest in parts:
+        mine = [b - off for b in bad if off < b <= off + len(lines)]
+        res.append(digest(mine, skipped if mine else 0, {k - off: v for k, v in diag.items()}))
+        off += len(lines)
+    a, b, f = res
     cov.update({
         "traces_validated_against_impl": cov["a_walks"] + 2,
-        "evaluations": a_steps + cov["b_pkg"]["lines"] + cov["b_front"]["lines"],
-        "distinct_nontrivial": a_nontrivial + cov["b_pkg"]["answered_from_cache"] + cov["b_front"]["answered_from_cache"],
-        "rule": "A: one step per (state, action) pair of HashPrefix.tla's graph reachable under the implementation's "
-                "own choices (+ connecting steps); non-trivial = a Check performed while some cache entry is usable. "
-                "B: one line per call of the real Check / CheckHost on random histories; non-trivial = answered without "
-                "asking the service although the name has candidates.  Every check line is judged by TraceHashPrefix.tla "
-                "against all outcomes the rules admit.",
-        "exhaustive": bool(exhaustive),
-        "samples": samples,
+        "evaluations": len(every),
+        "distinct_nontrivial": a["nontrivial"] + cov["b_pkg"]["answered_from_cache"] + cov["b_front"]["answered_from_cache"],
+        "rule": "A: one step per (state, action) pair of HashPrefix.tla's graph (+ connecting steps); non-trivial = "
+                "a Check performed while some cache entry is usable.  B: one line per call of the real Check / "
+                "CheckHost on random histories; non-trivial = answered without asking the service although the name "
+                "has candidates.  Every check line is judged by TraceHashPrefix.tla against all outcomes the rules admit.",
+        "exhaustive": bool(a["exhaustive"]),
+        "samples": a["samples"] + [{"trace_line_b": b["sample"]}, {"trace_line_front": f["sample"]}],
         "notes": ctx.notes,
     })
     return ctx.finish("model_checking", cov, assumptions=[
-        "TLC; conc()/abs() of zz_verif_c19_test.go (SHA-256 of its own, question parser, seeded label search for prefix collisions)",
+        "TLC; conc()/abs() of the two zz_verif_c19_test.go files (SHA-256 of their own, question parser, seeded label "
+        "search for prefix collisions)",
         "golang.org/x/net/publicsuffix as the instrument that says what an ICANN / private public suffix is",
         "mock lookup service: honest (all hashes under the requested prefixes, only those) with malformed TXT strings; "
-        "virtual time from testing/synctest; package-level names in lower case without trailing dot (callers' normal form), "
-        "mixed case through DNSFilter.CheckHost",
+        "virtual time from testing/synctest; package-level names in lower case without trailing dot (the callers' normal "
+        "form), mixed case through DNSFilter.CheckHost",
     ])
 
 
@@ -437,7 +446,6 @@ def replay(ctx, path):
     if rec["kind"] == "walk":
         by, _ = run_walks(ctx, rec["universe"], [rec["walk"]], "replay")
         lines, _ = walk_trace(rec["universe"], [rec["walk"]], by)
-        bad, _, diag = validate(ctx, lines, "replay")
         last = by[rec["walk"]["w"]][-1]
     else:
         ctx.tier = rec.get("tier", ctx.tier)
@@ -448,8 +456,8 @@ def replay(ctx, path):
         lines = vlib.read_ndjson(tout)
         if not lines:
             raise vlib.Inconclusive("replay produced no trace")
-        bad, _, diag = validate(ctx, lines, "replay")
         last = lines[-1]
+    bad, _, diag = validate(ctx, lines, "replay")
     rejected = bool(bad) and bad[-1] == len(lines)
     print(json.dumps({"expected_one_of": diag.get(len(lines), {}).get("admissible") if rejected else "admissible",
                       "observed": {k: last.get(k) for k in ("host", "q", "v", "ok", "why", "qn")}}, indent=1))
